@@ -1,4 +1,5 @@
 import Ledger.Proofs.SqlStore
+import Ledger.Proofs.SqlValues
 import Ledger.Proofs.SqlText
 import Ledger.Generated.Schema
 import Ledger.Generated.WriteSql
@@ -57,17 +58,6 @@ def avKeyIs (l a c : String) : List Value → Bool
 /-- all rows have the shape (varchar, varchar, varchar, numeric, numeric) -/
 def AvTyped (rs : List Ver) : Prop :=
   ∀ r ∈ rs, ∃ l a c i o, r.vals = [.text l, .text a, .text c, .int i, .int o]
-
-theorem cmpStr_eq (x y : String) : (cmpStr x y == Ordering.eq) = (x == y) := by
-  unfold cmpStr
-  by_cases h : x < y
-  · have : x ≠ y := by intro e; subst e; exact String.lt_irrefl _ h
-    simp [h, this]
-  · by_cases e : x = y <;> simp [h, e]
-
-theorem compareForSort_text (x y : String) : compareForSort (.text x) (.text y) = .ok (cmpStr x y) := by
-  simp [compareForSort, compareValues, compareScalar]
-  rfl
 
 theorem sameGroupKey_text3 (l a c l' a' c' : String) :
     sameGroupKey [.text l', .text a', .text c'] [.text l, .text a, .text c] = .ok (l' == l && a' == a && c' == c) := by
